@@ -4,7 +4,9 @@ Bounded fetch (items at the end of this file): the real `_fetch_with_probe` / `_
 `_request_following_redirects` / `_read_response_body` coroutines are driven without an event loop
 against a scripted in-memory origin whose behaviour is symbolic (HEAD ok or refused, declared
 Content-Length absent / smaller / larger than what the GET delivers, chunk size, HEAD and GET
-redirect chains, one validator-rejected redirect target, refused / failing statuses): once more than
+redirect chains, one validator-rejected redirect target, refused / failing statuses, one request that the
+HTTP client itself fails with any live aiohttp.ClientError class -- rendered by the live class from the arguments
+aiohttp gives it, i.e. carrying the request URL where aiohttp's own does): once more than
 max_fetch_bytes have arrived the client starts no further read (cap + one bounded chunk), it returns
 exactly the object or fails, follows at most max_redirects redirects, never contacts a rejected URL,
 and the text of whatever it raises names no userinfo, query string or fragment of the object's URL or
@@ -53,12 +55,17 @@ OUTSIDE = (
     "the decoded-size cap for gzip / zstd bodies (bounded by the codec itself: codec contract, see C18 — decided here for bodies served without, with an identity or with an "
     "unknown Content-Encoding), real aiohttp/sockets and log records (looked at only when a counterexample is replayed); objects > 16 bytes in the scripted origin; "
     "how large the client's own read size is (any finite n is 'a bounded chunk'; reading without a limit is not); percent-encoded secrets ('%' excluded: "
-    "urllib's unquote goes through `re`); non-ASCII; validators whose message embeds a *transformed* URL; longer parts than stated"
+    "urllib's unquote goes through `re`); aiohttp's ConnectionTimeoutError text ('Connection timeout to host <url with query>': needs a connect / sock_connect "
+    "timeout, the library's pool sets ClientTimeout(total=...) only, so its timeouts are the text-less total-timeout expiry); more than one failing request per fetch; non-ASCII; validators whose message embeds a *transformed* URL; longer parts than stated"
 )
 ASSUMPTIONS = [
     "scripted origin := in-memory aiohttp.ClientSession stand-in (head/get coroutines, response.status/headers/content.iter_chunked/iter_any/read(n)/readany/read()/release); "
     "a bounded read(n) gets up to n bytes in one piece, iter_chunked(n) / an unlimited read get the body in the origin's pieces; anything else raises HarnessModelError; "
     "every await completes immediately, so the coroutine is driven with send(None); an await that really suspends makes the item INCONCLUSIVE",
+    "HTTP client failure := for one request (HEAD or GET, for the object's URL or a redirect target) the scripted session raises an instance of a live aiohttp.ClientError subclass "
+    "(all of them, found through __subclasses__) or the builtin TimeoutError / ConnectionResetError, constructed with the arguments aiohttp passes (the yarl URL for InvalidURL / NonHttpUrlClientError, "
+    "RequestInfo(url without userinfo, real_url) + status 400 for the ClientResponseError family, ConnectionKey(host, port) + OSError for connector errors, nothing for timeouts / disconnects); "
+    "its text is the live class's own rendering; a target the library refuses to request (InvalidURL / NonHttpUrl families) is refused for whichever method asks first",
     "sx string model: ASCII char arrays with z3 Int code points (harness/_sx.py); validated each run against real str and, through the real redact_url/_validate_url, on random concrete URLs",
     "redact_url and _validate_url contain f-strings / str(exc): they are run from their live source with JoinedStr desugared to concatenation and str(x) -> identity on symbolic strings (sx.load); urllib.parse runs as the same bytecode",
     "validator := callback raising ValueError whose message embeds the URL (plain / quoted) or its user, password and query value",
@@ -524,6 +531,21 @@ class _Origin:
             return _OResp(self, method, self.get_status, [], 0)
         return _OResp(self, method, 200, self._enc_header("get_enc"), self.delivered)
 
+    fault = None  # (method, hop, failure kind or thunk of it): the HTTP client itself fails that request (see _client_failure)
+
+    def _maybe_fail(self, method: str, url: str) -> None:
+        if self.fault is None:
+            return
+        fmethod, fhop, kind = self.fault
+        if self._hop_of(url) == fhop:
+            if isinstance(kind, _Thunk):
+                kind = kind.fn()
+                self.fault = (fmethod, fhop, kind)
+            # a target the library refuses to request is refused whatever the method; other failures hit one request
+            if fmethod == method or (_failure_stimulus(kind) or "").startswith("refused"):
+                self.requested.append((method, fhop))
+                raise _client_failure(kind, method, url)
+
     enc: dict = {}  # Content-Encoding header values (or thunks) of the HEAD answer / the delivering GET answer; '' = no header
 
     def _enc_header(self, which: str) -> list:
@@ -536,6 +558,7 @@ class _Origin:
     async def head(self, url: str, *, headers=None, allow_redirects: bool = False, **kw) -> _OResp:  # noqa: ANN001, ANN003
         if allow_redirects:
             raise HarnessModelError("origin model: the session itself is asked to follow redirects")
+        self._maybe_fail("HEAD", str(url))
         return self._answer("HEAD", str(url))
 
     async def get(self, url: str, *, headers=None, allow_redirects: bool = False, **kw) -> _OResp:  # noqa: ANN001, ANN003
@@ -543,6 +566,7 @@ class _Origin:
             raise HarnessModelError("origin model: the session itself is asked to follow redirects")
         if headers and any(k.lower() == "range" for k in headers):
             raise HarnessModelError("origin model: Range requests are outside the single-GET model")
+        self._maybe_fail("GET", str(url))
         return self._answer("GET", str(url))
 
     def __getattr__(self, name: str):
@@ -607,6 +631,7 @@ def _fetch_scenario(a: dict):  # noqa: ANN201
     lz = a.lazy if isinstance(a, _Scenario) else (lambda key: a.get(key))
     origin = _Origin(a["head_ok"], a["declared"] if a["has_cl"] else None, a["delivered"], a["chunk"], a["head_hops"], a["get_hops"],
                      lz("cap"), lz("head_status") if "head_status" in a else 405, lz("get_status") if "get_status" in a else 200)
+    origin.fault = a.get("fault") if "fault" in a else None
     origin.enc = {"head_enc": lz("head_enc") if "head_enc" in a else "", "get_enc": lz("get_enc") if "get_enc" in a else ""}
     cfg = _Cfg(lz("cap"), lz("max_redirects"), lz("mdb") if "mdb" in a else None)
     bad = a["bad_hop"]
@@ -627,6 +652,19 @@ def _fetch_scenario(a: dict):  # noqa: ANN201
     return origin, data, err
 
 
+def _error_texts(err: BaseException) -> list:
+    """(where, text) of an error as it is rendered and logged: its own text and that of the chain a traceback shows
+    (explicit cause, or the context unless suppressed by ``from None``)."""
+    out, seen, e, where = [], 0, err, type(err).__name__
+    while e is not None and seen < 4:
+        out.append((where, str(e)))
+        nxt = e.__cause__ if e.__cause__ is not None else (None if e.__suppress_context__ else e.__context__)
+        if nxt is not None:
+            where = f"{type(err).__name__} (chained {type(nxt).__name__})"
+        e, seen = nxt, seen + 1
+    return out
+
+
 def _fetch_verdict(a: dict) -> str | None:
     """None when the run respects the property, else what it broke."""
     origin, data, err = _fetch_scenario(a)
@@ -638,10 +676,10 @@ def _fetch_verdict(a: dict) -> str | None:
         return (f"pulled {origin.pulled} body bytes from the origin with max_fetch_bytes={a['cap']} (origin pieces of {a['chunk']}"
                 f"{', body read without a size limit' if origin.unbounded_reads else ''}): {origin.late} of them in reads that began after the cap had already been exceeded")
     if err is not None and a.get("check_text", True):
-        for text in (str(err),):
+        for where, text in _error_texts(err):
             for secret in _URL_SECRETS:
                 if secret in text:
-                    return f"the fetch failed with {type(err).__name__} whose text contains {secret!r} (URL userinfo / query string / fragment): {text[:200]!r}"
+                    return f"the fetch failed with {where} whose text contains {secret!r} (URL userinfo / query string / fragment): {text[:200]!r}"
     if only_text:
         return None
     for method, hop in origin.requested:
@@ -679,6 +717,7 @@ def _real_origin(a: dict, body: bytes):  # noqa: ANN201
     log: list = []
     sent = [0]
     declared = a["declared"] if a["has_cl"] else None
+    fault = a.get("fault_real")
 
     class H(http.server.BaseHTTPRequestHandler):
         protocol_version = "HTTP/1.1"
@@ -693,9 +732,24 @@ def _real_origin(a: dict, body: bytes):  # noqa: ANN201
         def _common(self, method: str) -> bool:
             i = self._hop()
             log.append((method, i))
+            location = "/object?hop=" + str(i + 1)
+            if fault and fault["method"] == method:
+                if fault["hop"] == i and fault["stim"] == "malformed-head":
+                    self.wfile.write(b"HTTP/1.1 two hundred OK\r\n\r\n")  # a response head no HTTP client can parse
+                    self.close_connection = True
+                    return True
+                if fault["hop"] == i and fault["stim"] == "disconnect":
+                    self.close_connection = True  # hang up without answering
+                    return True
+                if fault["hop"] == i and fault["stim"] == "timeout":
+                    time.sleep(fault["stall"])
+                    self.close_connection = True
+                    return True
+                if fault["hop"] == i + 1 and "target" in fault:
+                    location = fault["target"]  # absolute redirect target carrying its own userinfo / query / fragment
             if i < a[("head" if method == "HEAD" else "get") + "_hops"]:
                 self.send_response(302)
-                self.send_header("Location", "/object?hop=" + str(i + 1))
+                self.send_header("Location", location)
                 self.send_header("Content-Length", "0")
                 self.end_headers()
                 return True
@@ -780,7 +834,9 @@ def _real_fetch(a: dict, body: bytes, cap: int):  # noqa: ANN201
         if bad >= 0 and hop == bad:
             raise ValueError("target not allowed: " + url if a.get("embeds") else "target not allowed")
 
-    cfg = xf.FetchConfig(max_fetch_bytes=cap, max_redirects=a["max_redirects"], timeout_seconds=30.0, max_decompressed_bytes=a.get("mdb"))
+    if a.get("fault_real") and a["fault_real"]["hop"] == 0 and "target" in a["fault_real"]:
+        base = a["fault_real"]["target"]  # the object's own URL is the one the client cannot request
+    cfg = xf.FetchConfig(max_fetch_bytes=cap, max_redirects=a["max_redirects"], timeout_seconds=a.get("timeout", 30.0), max_decompressed_bytes=a.get("mdb"))
     data = err = None
     try:
         try:
@@ -814,7 +870,8 @@ def _real_facts(a: dict, data, err, log: list, records: list, body: bytes, cap: 
             enc = a.get("get_enc") or a.get("head_enc") or ""
             return (f"fetch_url returned {len(data)} decoded bytes with max_decompressed_bytes={a['mdb']} "
                     f"(body served {'with Content-Encoding: ' + enc if enc else 'without a Content-Encoding'})")
-    texts = ([("error " + type(err).__name__, str(err)), ("error repr", repr(err))] if err is not None else []) + [("log record", r) for r in records]
+    texts = [("error " + where, text) for where, text in (_error_texts(err) if err is not None else [])]
+    texts += ([("error repr", repr(err))] if err is not None else []) + [("log record", r) for r in records]
     for where, text in texts:
         for secret in _URL_SECRETS:
             if secret in text:
@@ -955,6 +1012,131 @@ def status_and_size_errors_never_name_url_secrets(head_ok: bool, head_status_i: 
                    "head_hops": 0, "get_hops": 0, "max_redirects": 1, "bad_hop": -1, "embeds": False,
                    "head_status": _Thunk(lambda: _STATUSES[1 + _conc(head_status_i, 0, len(_STATUSES) - 2)]),
                    "get_status": _Thunk(lambda: _STATUSES[_conc(get_status_i, 0, len(_STATUSES) - 1)]), "only_text": True})
+    return _fetch_verdict(a) is None
+
+
+# ---- the HTTP client itself fails a request -------------------------------------------------
+# Which exception the client library raises for a request is not the fetch's choice: it depends on the target (a
+# scheme or an authority the library cannot request), the network (connect failures, resets, timeouts) and the origin
+# (a response head that does not parse).  The failure kinds are therefore a symbolic dimension: every live
+# aiohttp.ClientError class (plus the builtin timeout / reset the library lets through), each built from the
+# arguments aiohttp itself gives it, so that the text is whatever the live class renders -- for the URL-refusal and
+# the response-error families that is the request URL.
+
+
+def _client_failure_classes() -> list:
+    from aiohttp import client_exceptions as ce
+
+    def walk(c: type, acc: list) -> list:
+        for sub in c.__subclasses__():
+            if sub not in acc and sub.__module__.split(".")[0] == "aiohttp":
+                acc.append(sub)
+                walk(sub, acc)
+        return acc
+
+    return sorted(walk(ce.ClientError, [ce.ClientError]), key=lambda c: c.__name__) + [TimeoutError, ConnectionResetError]
+
+
+_FAILURES = _client_failure_classes()
+_FH = pick(1, 2)  # the failing request is the one for the object's URL or for redirect target 1.._FH
+
+
+def _client_failure(kind: int, method: str, url: str) -> Exception:
+    """Exception #kind as aiohttp raises it for a request of `url`."""
+    import ssl
+
+    from aiohttp import client_exceptions as ce
+    from aiohttp.client_reqrep import ConnectionKey, RequestInfo
+    from aiohttp.helpers import strip_auth_from_url
+    from yarl import URL
+
+    cls = _FAILURES[kind]
+    u = URL(url)
+    if issubclass(cls, ce.ClientResponseError):  # client_reqrep.ClientResponse.start(): the request's RequestInfo (url sent, url asked for)
+        sent, _auth = strip_auth_from_url(u)
+        return cls(RequestInfo(sent.with_fragment(None), method, {}, sent), (), status=400, message="Bad status line 'two hundred'", headers={})  # type: ignore[arg-type]
+    if issubclass(cls, (ce.InvalidURL, ce.NonHttpUrlClientError)):  # ClientSession._request(): raise NonHttpUrlClientError(url) / InvalidUrlClientError(str_or_url)
+        return cls(u)
+    key = ConnectionKey(**{**dict.fromkeys(ConnectionKey._fields), "host": u.host, "port": u.port, "is_ssl": True, "ssl": True})
+    if issubclass(cls, ce.ClientConnectorCertificateError):
+        return cls(key, ssl.CertificateError("hostname mismatch"))
+    if issubclass(cls, ce.UnixClientConnectorError):
+        return cls("/run/proxy.sock", key, OSError(111, "Connect call failed"))
+    if issubclass(cls, ce.ClientConnectorError):
+        return cls(key, OSError(111, "Connect call failed ('192.0.2.1', 443)"))
+    if issubclass(cls, ce.ServerFingerprintMismatch):
+        return cls(b"\x01", b"\x02", u.host, u.port)
+    if issubclass(cls, (ce.ServerDisconnectedError, TimeoutError)):
+        return cls()  # total-timeout expiry / a dropped connection carry no text of their own
+    if issubclass(cls, OSError):
+        return cls(104, "Connection reset by peer")
+    return cls("request could not be completed")
+
+
+def _failure_stimulus(kind: int) -> str | None:
+    """What makes the REAL aiohttp fail a request with a member of the same family (None: nothing a loopback origin can provoke)."""
+    from aiohttp import client_exceptions as ce
+
+    cls = _FAILURES[kind]
+    if issubclass(cls, ce.NonHttpUrlClientError):
+        return "refused-scheme"
+    if issubclass(cls, ce.InvalidURL):
+        return "refused-authority"
+    if issubclass(cls, ce.ClientResponseError):
+        return "malformed-head"
+    if issubclass(cls, ce.ClientConnectorError):
+        return "connect-refused"
+    if issubclass(cls, ce.ServerDisconnectedError):
+        return "disconnect"
+    if issubclass(cls, TimeoutError):
+        return "timeout"
+    return None
+
+
+def _replay_client_failure(a: dict) -> str | None:
+    """The public fetch_url against a real loopback origin whose request #(method, hop) the real aiohttp cannot complete:
+    the target (the object's URL, or the absolute Location the origin redirects to) has a scheme / an authority aiohttp
+    refuses to request or a port nobody listens on, or the origin answers that request with an unparsable head, hangs
+    up, or stalls past the timeout.  Judged on the error fetch_url raises (text, repr, chain) and the log records."""
+    import socket
+
+    stim = _failure_stimulus(a["kind"])
+    if stim is None:
+        return None
+    hop = a["fail_hop"]
+    fault: dict = {"method": "HEAD" if a["on_head"] else "GET", "hop": hop, "stim": stim, "stall": 4.0}
+    query = "hop=" + str(hop) if hop else "tok=" + _M_TOK
+    tail = "/object?" + query + "#" + _M_FRAG
+    if stim == "refused-scheme":
+        fault["target"] = "ftp://" + _M_USER + ":" + _M_PW + "@127.0.0.1" + tail
+    elif stim == "refused-authority":
+        fault["target"] = "http://" + _M_USER + ":" + _M_PW + "@127.0.0.1:99999" + tail
+    elif stim == "connect-refused":
+        with socket.socket() as sk:  # a loopback port with no listener
+            sk.bind(("127.0.0.1", 0))
+            closed = sk.getsockname()[1]
+        fault["target"] = "http://" + _M_USER + ":" + _M_PW + "@127.0.0.1:" + str(closed) + tail
+    if "target" in fault:
+        fault["method"] = "HEAD"  # decided by the target alone: the first request for it (the probe's) is the one that fails
+    sc = {**_REAL_DEFAULTS, "head_ok": a["head_ok"], "head_status": 403, "head_hops": hop, "get_hops": hop, "max_redirects": 2,
+          "only_text": True, "fault_real": fault, "timeout": 1.5 if stim == "timeout" else 30.0}
+    body = bytes((i * 7 + 1) % 251 for i in range(sc["delivered"]))
+    data, err, log, _sent, records = _real_fetch({**sc, "piece": sc["chunk"]}, body, sc["cap"])
+    return _real_facts(sc, data, err, log, records, body, sc["cap"])
+
+
+@cond(q=120, t=400, encoded=_T_ENC, stubs=_F_STUBS + ["HTTP client failure := the scripted session raises, for one request, any live aiohttp.ClientError class (or the builtin TimeoutError / ConnectionResetError) built from the arguments aiohttp gives it"],
+      bound="object URL with userinfo, query string and fragment; the failing request is the HEAD or the GET for the object's URL or for redirect target 1..%d (relative Locations carrying their "
+            "own query string); HEAD otherwise answered 200 or 403; failure = any of the %d classes %s" % (_FH, len(_FAILURES), ", ".join(c.__name__ for c in _FAILURES)),
+      replay=_replay_client_failure, signature=lambda a, c: "C31:fetch:http-client-failure-propagates-with-request-url")
+def client_failures_never_name_url_secrets(head_ok: bool, on_head: bool, fail_hop: int, kind: int) -> bool:
+    """
+    pre: 0 <= fail_hop <= _FH and 0 <= kind < len(_FAILURES)
+    post: _
+    """
+    a = _Scenario({"head_ok": head_ok, "has_cl": True, "declared": 2, "delivered": 2, "chunk": 2, "cap": 8,
+                   "head_hops": fail_hop, "get_hops": fail_hop, "max_redirects": 2, "bad_hop": -1, "embeds": False, "head_status": 403, "get_status": 200,
+                   "fault": ("HEAD" if on_head else "GET", fail_hop, _Thunk(lambda: _conc(kind, 0, len(_FAILURES) - 1))), "only_text": True})
     return _fetch_verdict(a) is None
 
 
